@@ -42,7 +42,7 @@ EXTRA = {
     # wave 8
     'C08-w81': ['C07'], 'C08-w82': ['C09', 'C06'], 'C08-w83': ['C06'], 'C01-w82': ['C08', 'C06'], 'C01-w83': ['C16'], 'C04-w82': ['C16'],
     'C06-w82': ['C09'], 'C03-w81': ['C07'], 'C03-w82': ['C09', 'C06'], 'C05-w82': ['C11'], 'C17-w83': ['C01'], 'C02-w81': ['C01'],
-    'C12-w83': ['C13'], 'C13-w81': ['C12'], 'C09-w83': ['C06'], 'C12-w82': ['C13'], 'C13-w82': ['C12'],
+    'C12-w83': ['C13'], 'C13-w81': ['C12'], 'C09-w83': ['C06'], 'C12-w82': ['C13'], 'C13-w82': ['C12'], 'C13-w83': ['C12'],
 }
 
 
